@@ -69,6 +69,13 @@ func runCloseEdge(c *edgeCase, size int64, bf *service.VerifBuffer, where string
 	case <-edgeGate.reached:
 	case <-time.After(3 * time.Second):
 		atomic.StoreInt32(&edgeGate.armed, 0)
+		select {
+		case err := <-waiterDone:
+			// the call came back instead of waiting: a producer that goes on in a full ring overwrites bytes the consumer
+			// has not committed, a consumer that goes on in an empty ring hands out bytes nobody produced
+			return fmt.Sprintf("%s: %s returned (err=%v) where the specification waits for the other side", where, c.Waiter, err), "C14"
+		default:
+		}
 		return fmt.Sprintf("INFRA %s: %s did not reach its wait", where, c.Waiter), "INFRA"
 	}
 	closed := make(chan struct{})
@@ -124,6 +131,13 @@ func runWakeEdge(c *edgeCase, size int64, bf *service.VerifBuffer, where string,
 	case <-edgeGate.reached:
 	case <-time.After(3 * time.Second):
 		atomic.StoreInt32(&edgeGate.armed, 0)
+		select {
+		case err := <-waiterDone:
+			// the call came back instead of waiting: a producer that goes on in a full ring overwrites bytes the consumer
+			// has not committed, a consumer that goes on in an empty ring hands out bytes nobody produced
+			return fmt.Sprintf("%s: %s returned (err=%v) where the specification waits for the other side", where, c.Waiter, err), "C14"
+		default:
+		}
 		return fmt.Sprintf("INFRA %s: %s did not reach its wait", where, c.Waiter), "INFRA"
 	}
 	committed := make(chan error, 1)
